@@ -31,7 +31,7 @@ Print Assumptions C47_container_never_fails_before_the_application.
    split, the port printed in decimal. *)
 Theorem C47_fixed_variables :
   forall r a e, environ r a = EnvOk e ->
-  e_method e = r_method r /\ e_query e = q_query a /\ e_remote e = r_remote_ip r /\
+  e_method e = r_method r /\ e_query e = q_query a /\ e_remote e = q_remote a /\
   e_protocol e = (if r_v11 r then t "HTTP/1.1" else t "HTTP/1.0") /\
   e_scheme e = (if q_https a then t "https" else t "http") /\ e_input e = r_body r /\
   path_info (q_path a) = Some (e_path e) /\
@@ -52,6 +52,25 @@ Theorem C47_protocol_without_xheaders :
   forall r, r_xheaders r = false -> https_spec r = r_https r.
 Proof. intros r H. unfold https_spec, effective_https. rewrite H. reflexivity. Qed.
 Print Assumptions C47_protocol_without_xheaders.
+
+(* REMOTE_ADDR is the request's remote_ip after _apply_xheaders (C32's model of it: X-Forwarded-For
+   walked from the right past trusted_downstream, overridden by X-Real-Ip, kept only if is_valid_ip
+   accepts it, for any recorded getaddrinfo behaviour), and the connection's address without xheaders. *)
+Theorem C47_remote_addr_is_the_xheaders_remote_ip :
+  forall r a e, accept r = Some a -> environ r a = EnvOk e ->
+  e_remote e =
+  if r_xheaders r then
+    let proto := if r_https r then C32.Model.s_https else C32.Model.s_http in
+    C32.Model.remote_ip
+      (C32.Model.apply_xheaders (gai_of (r_gai r))
+         (C32.Model.mkCtx (r_remote_ip r) proto (r_remote_ip r) proto (r_trusted r))
+         (C32.Model.classify_headers (map strip_value (r_headers r))))
+  else r_remote_ip r.
+Proof.
+  intros r a e Ha He. destruct (environ_fixed r a e He) as [_ [_ [E _]]]. rewrite E.
+  exact (proj2 (proj2 (proj2 (proj2 (accept_inv r a Ha))))).
+Qed.
+Print Assumptions C47_remote_addr_is_the_xheaders_remote_ip.
 
 (* str(port) is the canonical decimal numeral of the port *)
 Theorem C47_port_is_printed_in_decimal :
